@@ -18,7 +18,7 @@ ASSUMPTIONS = ["lentil's physical constants differ from CODATA by < 1e-6 relativ
 EXHAUSTIVE = True
 PLAN = {'quick': {'gen': 4}, 'thorough': {'gen': 8, 'tests': 1, 'docs': 1}}
 REQUIRED_BUCKETS = ['wave-triple', 'flux-triple', 'spectrum.to:density', 'spectrum.to:unitless', 'spectrum.to:flux-roundtrip', 'spectrum.to:multi', 'spectrum.sample:unit', 'blackbody:converted',
-                    'planck:radiance', 'planck:exitance', 'planck:forms', 'spectrum.to:refused-tail', 'same-numbers:mixed-units', 'wien', 'stefan-boltzmann', 'vega']
+                    'planck:radiance', 'planck:exitance', 'planck:forms', 'planck:argument-types', 'planck:rayleigh-jeans', 'spectrum.to:refused-tail', 'same-numbers:mixed-units', 'wien', 'stefan-boltzmann', 'vega']
 REQUIRED_ANCHORS = ['anchor:Spectrum.to', 'anchor:planck_radiance', 'anchor:planck_exitance', 'anchor:vegaflux',
                     'anchor:Photlam.to', 'anchor:Micron.to']
 REQUIRED_ORACLES = ['wave:compose', 'wave:identity', 'wave:roundtrip', 'wave=si', 'flux:compose', 'flux:identity',
@@ -346,6 +346,40 @@ def workload(ctx, lentil):
                               'conversion differs from Planck radiance requested in the other', {'T': T, 'waveunit': wu, 'form': vu}, scale=1.0)
             except Exception as e:
                 ctx.check(False, 'planck:forms', f'planck-forms|raises={type(e).__name__}', str(e), {'T': T, 'waveunit': wu})
+        # the TYPE in which wavelengths arrive does not matter (single precision arrays, integer arrays, plain lists), and
+        # neither does the regime: in the Rayleigh-Jeans limit (lambda*T large) exp(x) - 1 has to be evaluated as expm1(x)
+        try:
+            wsel = (wave_m / sm.WAVE_M['nm'])[1000:4000:600]
+            w_exact = np.round(wsel).astype(np.float64)                 # whole nanometres: exactly representable in every type
+            base = np.asarray(R.planck_radiance(w_exact, T, 'nm', 'wlam'), float)
+            forms = {'float32': w_exact.astype(np.float32), 'int64': w_exact.astype(np.int64), 'list': [float(x) for x in w_exact],
+                     'tuple': tuple(float(x) for x in w_exact)}
+            ctx.case({'planck-types': T}, ['planck:argument-types'])
+            for nm_, wf in forms.items():
+                if nm_ == 'float32' and float(w_exact.max()) >= 2 ** 24:
+                    continue
+                try:
+                    gotf = np.asarray(R.planck_radiance(wf, T, 'nm', 'wlam'), float)
+                    okp = base > base.max() * 1e-200
+                    ctx.close('planck:forms', (gotf / np.where(okp, base, 1))[okp], np.ones(int(okp.sum())), 1e-10, f'planck|argument-type|{nm_}',
+                              'Planck radiance depends on the type in which the wavelengths are handed over', {'T': T, 'type': nm_}, scale=1.0)
+                except Exception as e:
+                    ctx.check(False, 'planck:forms', f'planck|argument-type|{nm_}|raises={type(e).__name__}', str(e), {'T': T, 'type': nm_})
+            # integer wavelengths in metres (long-wave regime)
+            wm_int = np.array([1, 2, 5, 10, 40], dtype=np.int64)
+            g_i = np.asarray(R.planck_radiance(wm_int, T, 'm', 'wlam'), float)
+            g_f = np.asarray(R.planck_radiance(wm_int.astype(float), T, 'm', 'wlam'), float)
+            ctx.close('planck:forms', g_i / g_f, np.ones(5), 1e-10, 'planck|argument-type|int64-metres',
+                      'Planck radiance of integer-typed wavelengths in metres differs from the same wavelengths as floats', {'T': T}, scale=1.0)
+            # Rayleigh-Jeans regime
+            lam_rj = np.array([1.0, 100.0, 1e4]) * max(1.0, 1e6 / T)
+            ref_rj = sm.planck_radiance_si(lam_rj, T)
+            got_rj = np.asarray(R.planck_radiance(lam_rj, T, 'm', 'wlam'), float)
+            ctx.case({'planck-rayleigh-jeans': T}, ['planck:rayleigh-jeans'])
+            ctx.close('planck=si', got_rj / ref_rj, np.ones(3), 1e-5, 'planck|rayleigh-jeans',
+                      'Planck radiance loses accuracy (or overflows) in the Rayleigh-Jeans regime', {'T': T, 'lambda_m': lam_rj}, scale=1.0)
+        except Exception as e:
+            ctx.check(False, 'planck:forms', f'planck|types|raises={type(e).__name__}', str(e), {'T': T})
         # Wien peak (energy and photon form) on the dense grid, SI units via nm/wlam and nm/photlam
         ctx.case({'wien': T}, ['wien'])
         wave_nm = wave_m / 1e-9
